@@ -160,7 +160,8 @@ def valid_line(rng):
     return b"PROXY UNKNOWN" + t + b"\r\n", {"kind": 0, "fields": [b"PROXY", b"UNKNOWN"]}
 
 
-TRAILERS = [b"", b"x", b"5", b" ", b"\r", b"\n", b"\r\n", b"\x00", b"PROXY UNKNOWN\r\n", b"PROXY", "é".encode()]
+TRAILERS = [b"", b"x", b"5", b" ", b"\r", b"\n", b"\r\n", b"\x00", b"PROXY UNKNOWN\r\n", b"PROXY", "é".encode(),
+            b"\xff\xfe", b"\xe2\x82", b"\x16\x03\x01\x02\x00\x01"]
 
 
 def valid(tier, rng, k, n):
